@@ -204,8 +204,14 @@ inductive Tok where
   | blob (data : Bytes)                                               -- BLOB [2 0x01 0x02]
 deriving DecidableEq, Repr
 
+/-- the eight hexadecimal digits of a 32-bit value -/
+def hexDigits8 (v : Nat) : Bytes :=
+  [hexDigitChar (v / 268435456 % 16), hexDigitChar (v / 16777216 % 16), hexDigitChar (v / 1048576 % 16),
+   hexDigitChar (v / 65536 % 16), hexDigitChar (v / 4096 % 16), hexDigitChar (v / 256 % 16),
+   hexDigitChar (v / 16 % 16), hexDigitChar (v % 16)]
+
 def reserved : List Bytes :=
-  [lit "true", lit "false", lit "nil", lit "inf", lit "now", lit "immediately", lit "MIDI", lit "BLOB"]
+  [lit "true", lit "false", lit "nil", lit "inf", lit "immediately", lit "now", lit "MIDI", lit "BLOB"]
 
 def partText (p : List StrCh) : Bytes := 34 :: (p.map StrCh.text).flatten ++ [34]
 
@@ -235,7 +241,7 @@ def Tok.text (bl : List Nat → Blank) : Tok → Bytes
   | .ident name => name
   | .kw k => k.text
   | .color v upper =>
-    35 :: (let h := padZero 8 (if v = 0 then [] else hexDigitsAux v []); if upper then h.map toupper else h)
+    35 :: (let h := hexDigits8 v; if upper then h.map toupper else h)
   | .midi a b c d pad =>
     lit "MIDI" ++ blankBytes (bl [0]) ++ 91 :: blankBytes (bl [1]) ++ hexByteText pad a ++ blank1Bytes (bl [2]) ++
       hexByteText pad b ++ blank1Bytes (bl [3]) ++ hexByteText pad c ++ blank1Bytes (bl [4]) ++ hexByteText pad d ++
@@ -310,6 +316,38 @@ def elemsText (bl : List Nat → Blank) : Nat → List SVal → Bytes
   | k, [x] => x.text (sub bl (2 * k + 5))
   | k, x :: y :: r => x.text (sub bl (2 * k + 5)) ++ blank1Bytes (bl [2 * k + 6]) ++ elemsText bl (k + 1) (y :: r)
 end
+
+mutual
+/-- the side conditions on the spellings inside a value (`n` of `nxA` is positive) -/
+def SVal.wf : SVal → Bool
+  | .val t => t.wf
+  | .rep n x => decide (1 ≤ n) && x.wf
+  | .range b c => b.wf && c.wf
+  | .arr es _ => wfList es
+def wfList : List SVal → Bool
+  | [] => true
+  | x :: r => x.wf && wfList r
+end
+
+/-- an unsuffixed octal spelling whose decimal reading is a different number: the trigger of
+    known finding C11-K1 (`scanf_fmtstr` tries "%*d%n" first: "077" is read as 77) -/
+def Tok.octalPlain : Tok → Bool
+  | .int v .oct false => decide (8 ≤ v.natAbs)
+  | _ => false
+
+mutual
+def SVal.hasOctalPlain : SVal → Bool
+  | .val t => t.octalPlain
+  | .rep _ x => x.hasOctalPlain
+  | .range b c => b.octalPlain || c.octalPlain
+  | .arr es _ => hasOctalPlainList es
+def hasOctalPlainList : List SVal → Bool
+  | [] => false
+  | x :: r => x.hasOctalPlain || hasOctalPlainList r
+end
+
+/-- **trigger predicate of C11-K1** -/
+def hasOctalPlain (s : List SVal) : Bool := hasOctalPlainList s
 
 /-- the values with the separators between them -/
 def valuesText (L : Layout) : Nat → List SVal → Bytes
@@ -471,6 +509,9 @@ def denoteElems (opn : Bool) (prev : Option Cell) : List SVal → Option (List I
           | some its => some (it :: its)
           | none => none
 end
+
+/-- the side conditions on all spellings of a sentence -/
+def Sentence.wf (s : Sentence) : Bool := wfList s
 
 /-- **what a sentence denotes** (structured) -/
 def denote (s : Sentence) : Option (List Item) := denoteElems false none s
